@@ -153,7 +153,7 @@ Fixpoint lookup_from (k : nat) (i : nat) (st : cstate) (c name : bytes) (parent 
       else
         let pos := nth i (cs_pos st) 0 in
         let ln := nth i (cs_len st) 0 in
-        if ln =? 0 then LkPanic PC_ASSERT_LEN else
+        if ln =? 0 then (if cmp_skips_unused then next else LkPanic PC_ASSERT_LEN) else
         match slice_opt c pos ln with
         | None => LkPanic PC_CONTENTS
         | Some entry =>
@@ -268,3 +268,146 @@ Fixpoint build_names (st : cstate) (c : bytes) (names : list bytes) : outcome by
 
 Definition c19_build (base : N) (names : list bytes) : outcome bytes :=
   build_names cs_new (repeat 0 (N.to_nat base)) names.
+
+(* ================= the reversed-name path =================
+   compress_revname / lookup_entry_for_revname and RevName::build_in_message.
+   A RevName is the root label followed by the labels last-to-first. *)
+Definition ends_with_ci (entry lab : bytes) : bool :=
+  (len lab <=? len entry) && eq_ci (skipn (length entry - length lab) entry) lab.
+
+(* the `loop` after the first label: advance over the labels that match the end of entry *)
+Fixpoint rev_match (fuel : nat) (rem entry : bytes) : bytes * bytes :=
+  match fuel with
+  | O => (rem, entry)
+  | S f =>
+      match next_label rem with
+      | None => (rem, entry)
+      | Some (lab, rem') =>
+          if ends_with_ci entry lab then rev_match f rem' (firstn (length entry - length lab) entry)
+          else (rem, entry)
+      end
+  end.
+
+Inductive lkr := LrNone | LrHit (i : N) (rest : bytes) (pos : N) | LrPanic (site : N).
+
+Fixpoint rev_lookup_from (k : nat) (i : nat) (st : cstate) (c name : bytes) (parent : N)
+         (poff : option N) (first rem : bytes) (hash : N) : lkr :=
+  match k with
+  | O => LrNone
+  | S k' =>
+      let next := rev_lookup_from k' (S i) st c name parent poff first rem hash in
+      if negb (nth i (cs_hash st) 0 =? hash) || negb (nth i (cs_par st) 0 =? parent) then next
+      else
+        let pos := nth i (cs_pos st) 0 in
+        let ln := nth i (cs_len st) 0 in
+        if ln =? 0 then (if cmp_skips_unused then next else LrPanic PC_ASSERT_LEN) else
+        match slice_opt c pos ln with
+        | None => LrPanic PC_CONTENTS
+        | Some entry =>
+            let attach_ok :=
+              if cmp_checks_attach then
+                match poff with
+                | None => true
+                | Some o =>
+                    let v := (o + cmp_attach_add) mod 65536 in
+                    match slice_opt c (pos + ln) 2 with
+                    | Some [hi; lo] => (hi =? v / 256) && (lo =? v mod 256)
+                    | _ => false
+                    end
+                end
+              else true in
+            if negb attach_ok then next else
+            if negb (ends_with_ci entry first) then next else
+            let entry1 := firstn (length entry - length first) entry in
+            let '(rest, entry2) := rev_match (S (length rem)) rem entry1 in
+            LrHit (N.of_nat i) rest (pos + len entry2)
+        end
+  end.
+
+Definition rev_lookup (st : cstate) (c name : bytes) (parent : N) (poff : option N) : lkr :=
+  match next_label name with
+  | None => LrPanic PC_UNCHECKED
+  | Some (first, rem) => rev_lookup_from 32 0 st c name parent poff first rem (hash_label first)
+  end.
+
+Fixpoint rev_compress_loop (fuel : nat) (st : cstate) (c name : bytes) (parent : N)
+         (poff : option N) : outcome (cstate * bytes * N * option N) :=
+  match fuel with
+  | O => OutOfFuel
+  | S f =>
+      match name with
+      | [] => Ok (st, name, parent, poff)
+      | _ =>
+          match rev_lookup st c name parent poff with
+          | LrPanic s => Panic s
+          | LrNone => Ok (st, name, parent, poff)
+          | LrHit i rest pos =>
+              if cr_range_check && cmp_ge cr_range_ge (pos + cr_range_add) cr_range_bound
+              then Ok (st, name, parent, poff)
+              else
+                let use_pos := N.max (len c + len rest) cr_use_floor in
+                let st' := if cmp_lt cr_use_strict use_pos cr_use_bound
+                           then mkC (set_nth (cs_use st) (N.to_nat i) use_pos) (cs_pos st) (cs_len st) (cs_par st) (cs_hash st)
+                           else st in
+                rev_compress_loop f st' c rest i (Some pos)
+          end
+      end
+  end.
+
+(* rname: the RevName octets (root first) *)
+Definition compress_revname (st : cstate) (c rname : bytes) : outcome (option (bytes * N) * cstate) :=
+  let name := skipn 1 rname in
+  match name with
+  | [] => Ok (None, st)
+  | _ =>
+      do r <- rev_compress_loop (S (length name)) st c name cr_no_parent None;
+      let '(st1, name', parent, poff) := r in
+      do st2 <-
+        match name' with
+        | [] => Ok st1
+        | _ =>
+            if cmp_lt cr_reg_strict (len c + cr_reg_add) cr_reg_bound then
+              match next_label name' with
+              | None => Panic PC_UNCHECKED
+              | Some (first, _) =>
+                  let idx := first_min (cs_use st1) in
+                  Ok (mkC (set_nth (cs_use st1) idx (len c mod 65536)) (set_nth (cs_pos st1) idx (len c mod 65536))
+                          (set_nth (cs_len st1) idx (len name' mod 256)) (set_nth (cs_par st1) idx parent)
+                          (set_nth (cs_hash st1) idx (hash_label first)))
+              end
+            else Ok st1
+        end;
+      Ok (match poff with Some o => Some (name', o) | None => None end, st2)
+  end.
+
+(* the labels of a label sequence, in the order they appear *)
+Fixpoint split_labels (fuel : nat) (rem : bytes) : list bytes :=
+  match fuel with
+  | O => []
+  | S f => match next_label rem with Some (lab, rem') => lab :: split_labels f rem' | None => [] end
+  end.
+Definition unreverse (rem : bytes) : bytes := concat (rev (split_labels (S (length rem)) rem)).
+
+(* forward wire -> RevName octets *)
+Definition to_rev (wire : bytes) : bytes := 0 :: unreverse (firstn (length wire - 1) wire).
+
+(* RevName::build_in_message into a buffer that is large enough *)
+Definition build_revname (st : cstate) (c rname : bytes) : outcome (bytes * cstate) :=
+  do r <- compress_revname st c rname;
+  let '(res, st') := r in
+  match res with
+  | Some (rest, addr) =>
+      let v := addr + bim_ptr_add in
+      if 65535 <? v then Panic PC_ADD_OVERFLOW
+      else Ok (unreverse rest ++ [v / 256; v mod 256], st')
+  | None => Ok (unreverse (skipn 1 rname) ++ [0], st')
+  end.
+
+Fixpoint build_revnames (st : cstate) (c : bytes) (names : list bytes) : outcome bytes :=
+  match names with
+  | [] => Ok c
+  | w :: t => do r <- build_revname st c (to_rev w); let '(bs, st') := r in build_revnames st' (c ++ bs) t
+  end.
+
+Definition c19_build_rev (base : N) (names : list bytes) : outcome bytes :=
+  build_revnames cs_new (repeat 0 (N.to_nat base)) names.
